@@ -113,6 +113,8 @@ class Gen:
             flag = 's' if R.ascii_lower(name) == 'type' else None
         if self.p(0.1) or self.cfg.case_vary and self.p(0.3):
             name = self.swapcase(name)
+        if flag and self.p(0.35):
+            flag = flag.upper()
         return {'ns': None, 'name': name, 'op': op, 'val': val if op else '', 'flag': flag}
 
     def structural(self, el):
